@@ -1,6 +1,6 @@
 (* C11 — the generic lemmas instantiated with the tables of the Go toolchain (no hypothesis left). *)
 From Coq Require Import List Bool NArith.
-From C11 Require Import Model ProofsUtf8 ProofsLower ProofsText ProofsPath ProofsTables.
+From C11 Require Import Model ModelDoc ProofsUtf8 ProofsLower ProofsText ProofsPath ProofsDoc ProofsLegacy ProofsTables.
 Open Scope N_scope.
 
 Definition go_lower_sides_agree := lower_sides_agree go_to_lower go_to_lower_ascii go_to_lower_idem.
@@ -82,3 +82,71 @@ Lemma kw_nonvacuous :
   (length v <= limit_of (max_tok c) 0)%nat /\ has_rune WildcardRune v = false /\
   fst (kw_tokenize go_to_lower c 0 v) = [[105; 120]] /\ qkw go_to_lower (cs c) v = [TText [105; 120]].
 Proof. vm_compute. repeat split; try reflexivity. apply Nat.leb_le. reflexivity. Qed.
+
+(* ---------------------------------------------------------------- phase 2: flattening, legacy parser *)
+Definition go_flatten_findable := flatten_findable go_is_letter go_is_number go_to_lower.
+Definition go_seen_by_first := seen_by_first go_is_letter go_is_number go_to_lower.
+Definition go_seen_by_cs := seen_by_cs go_is_letter go_is_number go_to_lower.
+
+Lemma go_seen_value : forall c all v,
+  (forall mt v', hd_error (seen_by go_is_letter go_is_number go_to_lower c all v) = Some (mt, v') -> v' = v) /\
+  (cs c = true -> forall mt v', In (mt, v') (seen_by go_is_letter go_is_number go_to_lower c all v) -> v' = v).
+Proof.
+  intros. split.
+  - intros. eapply go_seen_by_first; eauto.
+  - intros Hc mt v' H. eapply go_seen_by_cs; eauto.
+Qed.
+
+Definition go_legacy_kw_consistent :=
+  legacy_kw_consistent go_to_lower go_to_lower_ascii go_to_lower_idem.
+Definition go_legacy_path_consistent :=
+  legacy_path_consistent go_to_lower go_to_lower_ascii go_to_lower_idem.
+Definition go_legacy_text_consistent :=
+  legacy_text_consistent go_is_letter go_is_number go_to_lower go_to_lower_ascii go_to_lower_idem go_class_ascii
+    go_fffd_not_word.
+
+(* a document with an object, a tag array and a nested array whose element holds a multi-type field:
+   {"o":{"x":"Ab"},"tg":[{"key":"a","value":"C d"}],"ns":[{"v":"E/f"}]} *)
+Definition ex_mapping : mapping :=
+  [([111], (TyObject, [([], TyObject, 0)]));
+   ([111; 46; 120], (TyKeyword, [([], TyKeyword, 0)]));
+   ([116; 103], (TyTags, [([], TyTags, 0)]));
+   ([116; 103; 46; 97], (TyText, [([], TyText, 0)]));
+   ([110; 115], (TyNested, [([], TyNested, 0)]));
+   ([110; 115; 46; 118], (TyKeyword, [([110; 115; 46; 118], TyKeyword, 0); ([110; 115; 46; 118; 46; 116], TyText, 5)]))].
+Definition ex_doc : jval :=
+  JObj [([111], JObj [([120], JLeaf (Some [65; 98]))] [123; 125]);
+        ([116; 103], JArr [JObj [([107; 101; 121], JLeaf (Some [97])); ([118; 97; 108; 117; 101], JLeaf (Some [67; 32; 100]))] [123; 125]] [91; 93]);
+        ([110; 115], JArr [JObj [([118], JLeaf (Some [69; 47; 102]))] [123; 125]] [91; 93])] [123; 125].
+
+Lemma flatten_nonvacuous :
+  reach ex_mapping [] ex_doc [111; 46; 120] (Some [65; 98]) /\
+  reach ex_mapping [] ex_doc [116; 103; 46; 97] (Some [67; 32; 100]) /\
+  reach ex_mapping [] ex_doc [110; 115; 46; 118] (Some [69; 47; 102]) /\
+  doc_metas go_is_letter go_is_number go_to_lower ex_mapping (ICfg false false 72 32768) ex_doc =
+    [ [(K_ALL, []); ([111; 46; 120], [97; 98]); (K_EXISTS, [111; 46; 120]);
+       ([116; 103; 46; 97], [99]); ([116; 103; 46; 97], [100]); (K_EXISTS, [116; 103; 46; 97])];
+      [(K_ALL, []); ([110; 115; 46; 118], [101; 47; 102]); (K_EXISTS, [110; 115; 46; 118]);
+       ([110; 115; 46; 118; 46; 116], [101]); ([110; 115; 46; 118; 46; 116], [102]); (K_EXISTS, [110; 115; 46; 118; 46; 116]);
+       ([111; 46; 120], [97; 98]); (K_EXISTS, [111; 46; 120]);
+       ([116; 103; 46; 97], [99]); ([116; 103; 46; 97], [100]); (K_EXISTS, [116; 103; 46; 97])] ].
+Proof.
+  split; [|split; [|split]].
+  - eapply R_object with (k := [111]) (fs' := [([120], JLeaf (Some [65; 98]))]); [cbn; auto|reflexivity|].
+    apply (R_field ex_mapping [111] [([120], JLeaf (Some [65; 98]))] [123; 125] [120] (JLeaf (Some [65; 98]))); [cbn; auto|exact I].
+  - eapply R_tag with (k := [116; 103]) (enc' := [91; 93]) (tenc := [123; 125]) (kn := JLeaf (Some [97]))
+      (tfs := [([107; 101; 121], JLeaf (Some [97])); ([118; 97; 108; 117; 101], JLeaf (Some [67; 32; 100]))]);
+      [cbn; auto|reflexivity|cbn; auto|reflexivity].
+  - eapply R_nested with (k := [110; 115]) (e := JObj [([118], JLeaf (Some [69; 47; 102]))] [123; 125]);
+      [cbn; auto|reflexivity|cbn; auto|].
+    apply (R_field ex_mapping [110; 115] [([118], JLeaf (Some [69; 47; 102]))] [123; 125] [118] (JLeaf (Some [69; 47; 102]))); [cbn; auto|exact I].
+  - vm_compute. reflexivity.
+Qed.
+
+(* legacy parser: "ab\xffcd" is found in case-insensitive mode (both sides render the byte as U+FFFD), not in
+   case-sensitive mode (the same known finding cs-invalid-utf8) *)
+Lemma legacy_invalid_witness :
+  let v := [97; 98; 255; 99; 100] in
+  query_finds (lq_kw go_to_lower false v) (fst (kw_tokenize go_to_lower (ICfg false false 72 32768) 0 v)) = true /\
+  query_finds (lq_kw go_to_lower true v) (fst (kw_tokenize go_to_lower (ICfg true false 72 32768) 0 v)) = false.
+Proof. vm_compute. split; reflexivity. Qed.
